@@ -264,6 +264,33 @@ func c19Version(cfg *world.Config, v *version, acc *pairAcc, st *c19Stats) {
 		var t *mast.Mast
 		r := guardRes(func() (err error) { t, err = root.LoadMast(ctx, rc); return })
 		desc := []string{fmt.Sprintf("version %v (height %d, %s)", v.c, v.root.Height, cfg.Format), "perturbation: " + c.name}
+		// the same mismatch must also be rejected when a shared node cache already holds the
+		// (unperturbed) top node: only for perturbations that leave the stored bytes alone
+		// (clauses about the stored bytes - undecodable, counts, missing - are not judged here: a
+		// cache hit legitimately skips decoding; only order and layer mismatches are)
+		if len(clauses) > 0 && (c.kind == "order" || c.kind == "height" || c.kind == "branchfactor") && len(c.store) == 0 && c.remove == "" && c.root.Link != nil && *c.root.Link == v.link && r.Err != nil && r.Panic == nil {
+			cache := env.NewCache(env.CacheBig)
+			warm := v.w.RemoteConfig(stc, false)
+			warm.NodeCache = cache
+			if wt, err := v.root.LoadMast(ctx, warm); err == nil {
+				v.w.ReadContents(wt)
+				rc2 := *rc
+				rc2.NodeCache = cache
+				atomic.AddInt64(&st.cases, 1)
+				atomic.AddInt64(&st.judged, 1)
+				r2 := guardRes(func() (err error) { _, err = root.LoadMast(ctx, &rc2); return })
+				if r2.Panic != nil || r2.Err == nil {
+					sym := "accepted"
+					if r2.Panic != nil {
+						sym = "panic-instead-of-error"
+					}
+					acc.add(cfg, "C19", []explore.Finding{{Sig: fmt.Sprintf("C19|%s|%s|%s|top-node-in-shared-cache", c.kind, clauses[0], sym),
+						What: "LoadMast did not reject a root that does not match (" + clauses[0] + ") when the top node was already in the shared node cache", Detail: fmt.Sprintf("clauses %v: %v", clauses, r2)}}, append(desc, "with a node cache warmed by loading the unperturbed root"))
+				} else {
+					atomic.AddInt64(&st.rejected, 1)
+				}
+			}
+		}
 		if len(clauses) == 0 {
 			if c.kind == "identity" && (r.Err != nil || r.Panic != nil) {
 				acc.add(cfg, "C19", []explore.Finding{{Sig: "C19|unperturbed-root-rejected|" + resClass(r), What: "LoadMast rejected a root exactly as MakeRoot returned it", Detail: r.String()}}, desc)
